@@ -547,6 +547,7 @@ func (e *Engine) exec(st *State, f *Frame, in ssa.Instruction) (action, []*State
 		}
 		switch x.Op {
 		case token.MUL:
+			e.viewGuard(st, a, x.Pos())
 			f.locals[x] = e.load(st, a, x.Pos())
 		case token.NOT:
 			t, ok := scalarOf(a)
@@ -704,6 +705,7 @@ func (e *Engine) exec(st *State, f *Frame, in ssa.Instruction) (action, []*State
 	case *ssa.Slice:
 		return e.execSlice(st, f, x)
 	case *ssa.Store:
+		e.viewGuard(st, e.get(st, f, x.Addr), x.Pos())
 		e.store(st, e.get(st, f, x.Addr), e.get(st, f, x.Val), x.Pos())
 		if len(st.frames) == 0 {
 			return actDead, nil
@@ -1236,6 +1238,21 @@ func (e *Engine) convert(st *State, a Val, from, to types.Type) Val {
 		}
 		return Poison{"[]rune(string)"}
 	}
+	// unsafe.Pointer -> *T over a byte array element: typed little-endian view
+	if bt, ok := fu.(*types.Basic); ok && bt.Kind() == types.UnsafePointer {
+		if pt, ok := tu.(*types.Pointer); ok {
+			if p, ok := a.(Ptr); ok && p.obj != 0 && len(p.path) > 0 && p.path[len(p.path)-1].field == -1 {
+				if et, ok := pt.Elem().Underlying().(*types.Basic); !ok || et.Kind() != types.Uint8 {
+					if e.isByteArrayAt(st, p) {
+						np := Ptr{obj: p.obj, path: append([]PathEl(nil), p.path...)}
+						last := np.path[len(np.path)-1]
+						np.path[len(np.path)-1] = PathEl{field: -3, idx: last.idx, typ: pt.Elem()}
+						return np
+					}
+				}
+			}
+		}
+	}
 	// pointer <-> unsafe.Pointer, and other representation-preserving conversions
 	switch a.(type) {
 	case Ptr, Union:
@@ -1350,4 +1367,44 @@ func (e *Engine) strLess(x, y SliceV) (*Term, *Term) {
 		return nil, nil
 	}
 	return lt, eq
+}
+
+// isByteArrayAt reports whether p (ending in an element index) points into an array of bytes.
+func (e *Engine) isByteArrayAt(st *State, p Ptr) bool {
+	v := e.getPath(e.objVal(st, p.obj), p.path[:len(p.path)-1])
+	av, ok := v.(ArrayV)
+	if !ok || len(av.e) == 0 {
+		return false
+	}
+	s, ok := av.e[0].(Scalar)
+	return ok && s.t.w == 8
+}
+
+// viewGuard records the obligation that a typed view access stays inside the byte array.
+func (e *Engine) viewGuard(st *State, pv Val, pos token.Pos) {
+	p, ok := pv.(Ptr)
+	if !ok || p.obj == 0 {
+		return
+	}
+	for i, pe := range p.path {
+		if pe.field != -3 {
+			continue
+		}
+		av, ok := e.getPath(e.objVal(st, p.obj), p.path[:i]).(ArrayV)
+		if !ok {
+			return
+		}
+		off, t, ok := e.viewResolve(pe.idx, pe.typ, p.path[i+1:])
+		if !ok {
+			return
+		}
+		sz := uint64(sizes.Sizeof(t))
+		n := uint64(len(av.e))
+		if sz > n {
+			e.guard(st, e.b.False(), "unsafe typed access larger than the buffer", pos)
+			return
+		}
+		e.guard(st, e.b.Ule(off, e.b.BV(64, n-sz)), "unsafe typed access beyond the end of the buffer", pos)
+		return
+	}
 }
